@@ -22,6 +22,70 @@ pub type Var = ssz_types::VariableList<u8, typenum::U4>;
 /// so hashing one element forks inside the outer leaf's hash computation).
 pub type Nl = milhouse::List<u64, typenum::U64>;
 
+/// The `fu64` kind: a `u64` whose tree-hash callbacks can be made to fail (fault injection).
+///
+/// `fault k` arms a countdown: the `k`-th call of `tree_hash_packed_encoding` / `tree_hash_root` on
+/// any `Fu64` from then on panics ("injected fault"); the countdown is disarmed when the operation
+/// following `fault` ends. Everything else is exactly `u64`.
+#[derive(Debug, Default, Clone, PartialEq, Serialize, Deserialize)]
+#[serde(transparent)]
+pub struct Fu64(pub u64);
+
+pub static FAULT: std::sync::atomic::AtomicI64 = std::sync::atomic::AtomicI64::new(0);
+pub static FIRED: std::sync::atomic::AtomicBool = std::sync::atomic::AtomicBool::new(false);
+
+fn fault_tick() {
+    use std::sync::atomic::Ordering::SeqCst;
+    if FAULT.load(SeqCst) > 0 && FAULT.fetch_sub(1, SeqCst) == 1 {
+        FIRED.store(true, SeqCst);
+        panic!("injected fault");
+    }
+}
+
+impl Encode for Fu64 {
+    fn is_ssz_fixed_len() -> bool {
+        true
+    }
+    fn ssz_fixed_len() -> usize {
+        8
+    }
+    fn ssz_bytes_len(&self) -> usize {
+        8
+    }
+    fn ssz_append(&self, buf: &mut Vec<u8>) {
+        self.0.ssz_append(buf)
+    }
+}
+
+impl Decode for Fu64 {
+    fn is_ssz_fixed_len() -> bool {
+        true
+    }
+    fn ssz_fixed_len() -> usize {
+        8
+    }
+    fn from_ssz_bytes(bytes: &[u8]) -> Result<Self, ssz::DecodeError> {
+        u64::from_ssz_bytes(bytes).map(Fu64)
+    }
+}
+
+impl tree_hash::TreeHash for Fu64 {
+    fn tree_hash_type() -> tree_hash::TreeHashType {
+        tree_hash::TreeHashType::Basic
+    }
+    fn tree_hash_packed_encoding(&self) -> tree_hash::PackedEncoding {
+        fault_tick();
+        self.0.tree_hash_packed_encoding()
+    }
+    fn tree_hash_packing_factor() -> usize {
+        4
+    }
+    fn tree_hash_root(&self) -> tree_hash::Hash256 {
+        fault_tick();
+        self.0.tree_hash_root()
+    }
+}
+
 /// Everything the driver needs from an element type.
 pub trait Elem:
     milhouse::Value + Send + Sync + Default + Serialize + DeserializeOwned + 'static
